@@ -134,6 +134,7 @@ func c11Menu(sp *listSpec) []updCase {
 		{nil, filterSpec{del: true, delSel: 1}},
 		{nil, filterSpec{del: true, delElements: true}},
 		{nil, filterSpec{del: true, delSel: 2, delElements: true}},
+		{nil, filterSpec{del: true, delElements: true, delSub: true}}, // elements naming a sub-element of a nested field (value.scale ...)
 		{[]itemSpec{{pay: "-2"}}, filterSpec{del: true, delSel: 1, partial: true, partialSel: 2}},
 		{[]itemSpec{{pay: "2-"}}, filterSpec{}}, // filter-less with an identifier-less item (what an application passes to compute a full write data set)
 	}
@@ -149,7 +150,7 @@ func c11Families(thorough bool) []*engine.IFamily {
 	}
 	paths := []string{"local", "write", "notify", "reply", "remote-nopersist"}
 	lists := &engine.IFamily{Name: "list-snapshots", Chunks: len(specs),
-		Rule: fmt.Sprintf("every list-typed function with numeric identifiers reachable through a feature (%d) x install path {local SetData, notify} x every ordered pair of updates from a menu of 10 shapes x path {local API, remote write, notify, reply, non-persisting UpdateData}; retained objects: the value given to SetData, DataCopy of the local and of the remote feature, the data of the last data-change event; each compared with its canonical photo after every update; non-trivial: the update changed the stored list", len(specs)),
+		Rule: fmt.Sprintf("every list-typed function with numeric identifiers reachable through a feature (%d) x install path {local SetData, notify} x every ordered pair of updates from a menu of 11 shapes x path {local API, remote write, notify, reply, non-persisting UpdateData}; retained objects: the value given to SetData, DataCopy of the local and of the remote feature, the data of the last data-change event; each compared with its canonical photo after every update; non-trivial: the update changed the stored list", len(specs)),
 		Run: func(chunk int) engine.IResult {
 			var r engine.IResult
 			sp := specs[chunk]
